@@ -115,3 +115,17 @@ class response_files:
     n_quick = 200
     n_thorough = 5000
     ensures = {"same-arguments": lambda args, result: list(result) == list(args)}
+
+
+@contract("nanoemoji.config.load", props=["C10", "C20"])
+class config_masters_round_trip:
+    bounded_only = True
+    gen = H.gen_masters
+    native_call = H.masters_round_trip
+    n_quick = 60
+    n_thorough = 1500
+    ensures = {
+        # axes (in any declaration order) and every master's location survive the driver's
+        # write -> worker's load hand-off
+        "axes-and-master-locations-survive": lambda result: result["loaded_is_what_was_written"] and result["reloaded_equals_loaded"] and result["default_master"],
+    }
